@@ -276,6 +276,16 @@ def id_lifecycle(check: Check, repo: Repo) -> None:
                 check.ob(rule, c, f"{m.name}: {unparse(c)}", ok,
                          "allocation site of an announcing / completing handler" if ok else
                          f"`{m.name}` is a lookup helper: allocating an id here hands out the id of a group that was never announced as pending")
+    # a failure event can name a nested group that was never announced (WorkQueue._task_failure walks all
+    # groups of the failed task, released or not): its arm looks the id up and must not allocate one
+    hw = ci.methods()["_handle_work_queue_event"]
+    for arm in ast.walk(hw):
+        if isinstance(arm, ast.If) and "GroupFailureEvent" in unparse(arm.test):
+            allocs = [c for s_ in arm.body for c in ast.walk(s_) if isinstance(c, ast.Call) and call_name(c) == "self._ensure_id"]
+            check.ob(rule, arm, "GroupFailureEvent arm does not allocate an id", not allocs,
+                     "looks the id up with self._ids.get(...)" if not allocs else
+                     "`self._ensure_id(group)` hands out a fresh id for a group that may never have been announced: the client gets "
+                     "`completed` for an id it has not seen pending")
     # completed <-> delete pairing per branch
     fn = ci.methods()["_handle_work_queue_event"]
     n_blocks = 0
@@ -291,7 +301,16 @@ def id_lifecycle(check: Check, repo: Repo) -> None:
             n_blocks += 1
             ok = len(comp) == 1 and len(dels) == 1
             if ok:
+                looked_up = {
+                    a.targets[0].id: unparse(a.value.args[0]) for a in ast.walk(fn)
+                    if isinstance(a, ast.Assign) and isinstance(a.targets[0], ast.Name) and isinstance(a.value, ast.Call)
+                    and unparse(a.value.func) == "self._ids.get" and a.value.args
+                }
                 node_c = [unparse(c.args[0]) for c in ast.walk(comp[0]) if isinstance(c, ast.Call) and unparse(c.func) == "self._ensure_id"]
+                for c in ast.walk(comp[0]):
+                    if isinstance(c, ast.Call) and call_name(c) == "CompletedResult" and c.args and isinstance(c.args[0], ast.Name) \
+                            and c.args[0].id in looked_up:
+                        node_c.append(looked_up[c.args[0].id])
                 node_d = unparse(dels[0].targets[0].slice)
                 ok = node_c == [node_d] and block.index(comp[0]) < block.index(dels[0])
             check.ob(rule, arm, f"branch `{unparse(arm.test)[:50]}`: completed <-> id deleted", ok,
